@@ -281,7 +281,8 @@ def cmd_standin(prop, n, seed, path_out, tier="quick", only=None):
             continue
         if c.domain == "skip":
             continue
-        nn = n if not c.bounded else int(n * float(c.ghost.get("standin_factor", 1)))
+        # bounded-tier contracts enumerate their own scope (gen returns None when exhausted) under the time budget
+        nn = n if c.gen is None else 10 ** 9
         jobs.append((key, nn, seed, tier))
     if len(jobs) > 1:
         with mp.get_context("fork").Pool(min(16, len(jobs))) as pool:
